@@ -58,7 +58,7 @@ CONSTANTS
   Avoid,         \* known loader / validator defects (known_findings.d/C14.json, C18.json) whose
                  \* trigger is NOT generated, so that larger random documents are not all masked
                  \* by them: subset of {"K1","K2","V1","V2","V3"} (C14/C18) and of
-                 \* {"AK" no anchors on keys, "HC" no indicator-looking comment text, "SA" (YqWrite) no `get` of a
+                 \* {"AK" no anchors on keys, "HC" no indicator-looking comment text, "BC" no comment on a block scalar header, "SA" (YqWrite) no `get` of a
                  \* subtree that holds an alias to an anchor outside it} (C15, known_findings.d/C15.json); {} in the exhaustive small-scope runs
   Sim            \* TRUE under -simulate: every choice inside an action is drawn at random
                  \* (one successor per action kind), so random walks are cheap and the tree
@@ -300,6 +300,7 @@ AddScalar ==
           /\ (role \in {"root", "item"} /\ st \in {"plain", "lit", "fold"} => cm # 2)
           /\ ("K1" \in Avoid /\ role = "root" /\ st \in {"lit", "fold"} => cm = 0 /\ ~HasColonSpace(PAL[t].s))
           /\ ("AK" \in Avoid /\ role = "key" => an = 0)
+          /\ ("BC" \in Avoid /\ st \in {"lit", "fold"} => cm = 0)
           /\ ("HC" \in Avoid => cm # 2 /\ pre # 3)
           /\ ("K2" \in Avoid /\ role = "key" /\ st \in {"single", "double"} => ~AfterEmptyTop)
           /\ dec' = dec + Cost(an, cm, pre, vr)
